@@ -2,14 +2,21 @@ import Martian.Model.Config
 /-!
 Driver for C12. Ops:
   `post <tree>`                 → `ok <hasReq> <hasRes>` | `rej <unknown-modifier|invalid-scope|malformed>`
-  `run <q|s> <msgspec> <true atoms>` → `t=<labels> e=<-|E<l>|M<l,…>>`
+  `run <q|s> <message>`         → `t=<labels> e=<-|E<l>|M<l,…>>`
+  `cond <q|s> <cond> <message>` → `1` | `0`            (one matcher on one message)
+  `matchhost <host> <pattern>`  → `1` | `0`            (`martianurl.MatchHost`)
+  `query <raw>`                 → `k:v,k:v…` | `-`     (`url.ParseQuery`, stably sorted by key)
 Tree tokens (prefix form):
   `L <label> <caps b|q|s|z> <failReq> <failRes> <scope>` | `U<variant>` | `X<variant>`
   `F <scope> <agg> <n> child*n` | `P <scope> <n> (<prio> child)*n` | `C <cond> <scope> <hasElse> then [else]`
   scope: `n` (absent/null) | `e` (`[]`) | string over q (request) s (response) x (anything else)
+  cond:  `m:<method>` | `u:<scheme>:<host>:<path>:<query>` | `q:<name>:<value>` | `h:<name>:<value>` | `c:<name>:<value>` (hex)
+  message: 14 `;`-separated fields: method;scheme;host;path;rawQuery;req.Host;req.ContentLength;req.TransferEncoding;
+           request headers;request cookies;res.ContentLength;res.TransferEncoding;response headers;response cookies
+           (byte strings hex; TE `n` = nil, `e` = empty, else `,`-list; headers/cookies `-` or `name:value,…` in Add order)
 -/
 namespace Martian.Drv.C12
-open Martian Martian.Config
+open Martian Martian.Config Martian.Go
 
 def parseScope (s : String) : Option Scope :=
   if s = "n" || s = "N" then some none
@@ -27,6 +34,62 @@ def parseCaps (s : String) : Option Caps :=
 
 def parseInt (s : String) : Option Int :=
   if s.startsWith "-" then (s.drop 1).toNat?.map (fun n => -(n : Int)) else s.toNat?.map (fun n => (n : Int))
+
+def parseCond (s : String) : Option Cond :=
+  match s.splitOn ":" with
+  | ["m", a] => (unhex a).map Cond.method
+  | ["u", a, b, c, d] =>
+    match unhex a, unhex b, unhex c, unhex d with
+    | some a, some b, some c, some d => some (.url a b c d)
+    | _, _, _, _ => none
+  | ["q", a, b] => match unhex a, unhex b with | some a, some b => some (.query a b) | _, _ => none
+  | ["h", a, b] => match unhex a, unhex b with | some a, some b => some (.header a b) | _, _ => none
+  | ["c", a, b] => match unhex a, unhex b with | some a, some b => some (.cookie a b) | _, _ => none
+  | _ => none
+
+def parsePairs (s : String) : Option (List (Bytes × Bytes)) :=
+  if s = "-" then some [] else
+  (s.splitOn ",").mapM fun kv =>
+    match kv.splitOn ":" with
+    | [k, v] => match unhex k, unhex v with | some k, some v => some (k, v) | _, _ => none
+    | _ => none
+
+def parseTE (s : String) : Option (Option (List Bytes)) :=
+  if s = "n" then some none else if s = "e" then some (some [])
+  else ((s.splitOn ",").mapM unhex).map some
+
+def parseMsg (s : String) : Option Message :=
+  match s.splitOn ";" with
+  | [me, sc, ho, pa, rq, rh, rcl, rte, rhd, rck, scl, ste, shd, sck] =>
+    match unhex me, unhex sc, unhex ho, unhex pa, unhex rq, unhex rh with
+    | some me, some sc, some ho, some pa, some rq, some rh =>
+      match parseInt rcl, parseTE rte, parsePairs rhd, parsePairs rck, parseInt scl, parseTE ste, parsePairs shd, parsePairs sck with
+      | some rcl, some rte, some rhd, some rck, some scl, some ste, some shd, some sck =>
+        some { method := me, scheme := sc, host := ho, path := pa, rawQuery := rq, reqHost := rh, reqCL := rcl, reqTE := rte,
+               reqHeader := rhd.foldl (fun h kv => Header.add h kv.1 kv.2) [], reqCookies := rck,
+               resCL := scl, resTE := ste, resHeader := shd.foldl (fun h kv => Header.add h kv.1 kv.2) [], resCookies := sck }
+      | _, _, _, _, _, _, _, _ => none
+    | _, _, _, _, _, _ => none
+  | _ => none
+
+def parseKind (k : String) : Option Kind := if k = "q" then some Kind.req else if k = "s" then some Kind.res else none
+
+/-- lexicographic `<` on byte strings (Go string comparison) -/
+def bytesLt : Bytes → Bytes → Bool
+  | [], [] => false
+  | [], _ :: _ => true
+  | _ :: _, [] => false
+  | a :: as, b :: bs => if a < b then true else if b < a then false else bytesLt as bs
+
+def insByKey (x : Bytes × Bytes) : List (Bytes × Bytes) → List (Bytes × Bytes)
+  | [] => [x]
+  | y :: ys => if bytesLt y.1 x.1 then y :: insByKey x ys else x :: y :: ys
+
+/-- stable sort by key -/
+def sortByKey (l : List (Bytes × Bytes)) : List (Bytes × Bytes) := l.foldr insByKey []
+
+def showPairs (l : List (Bytes × Bytes)) : String :=
+  if l.isEmpty then "-" else ",".intercalate (l.map fun kv => hex kv.1 ++ ":" ++ hex kv.2)
 
 mutual
 def parseNode : Nat → List String → Option (Node × List String)
@@ -52,7 +115,7 @@ def parseNode : Nat → List String → Option (Node × List String)
         | none => none
       | _, _ => none
     | "C" :: c :: sc :: he :: rest =>
-      match c.toNat?, parseScope sc, parseBool he with
+      match parseCond c, parseScope sc, parseBool he with
       | some c, some sc, some he =>
         match parseNode fuel rest with
         | some (t, rest) =>
@@ -124,10 +187,22 @@ def step (s : St) (toks : List String) : St × String :=
       match servePOST s n with
       | (s', .ok ()) => (s', s!"ok {b01 s'.req.isSome} {b01 s'.res.isSome}")
       | (s', .error e) => (s', s!"rej {showPErr e}")
-  | ["run", k, _msg, atoms] =>
-    match (if k = "q" then some Kind.req else if k = "s" then some Kind.res else none), natList atoms with
-    | some k, some tr => (s, showOutcome (run s k (fun _ a => tr.contains a)))
+  | ["run", k, msg] =>
+    match parseKind k, parseMsg msg with
+    | some k, some m => (s, showOutcome (run s k m.toMsg))
     | _, _ => (s, "bad-op")
+  | ["cond", k, c, msg] =>
+    match parseKind k, parseCond c, parseMsg msg with
+    | some k, some c, some m => (s, b01 (holds c k m))
+    | _, _, _ => (s, "bad-op")
+  | ["matchhost", h, p] =>
+    match unhex h, unhex p with
+    | some h, some p => (s, b01 (matchHost h p))
+    | _, _ => (s, "bad-op")
+  | ["query", q] =>
+    match unhex q with
+    | some q => (s, showPairs (sortByKey (parseQuery q)))
+    | none => (s, "bad-op")
   | _ => (s, "bad-op")
 
 end Martian.Drv.C12
